@@ -330,6 +330,19 @@ func (g *Gen) ScalarFor(parent reflect.Value, f *FieldInfo, t reflect.Type) refl
 	return v
 }
 
+// KeyFor draws a valid list-key value (Go type t of the key field) for key
+// leaf f of the entry struct parent.
+func (g *Gen) KeyFor(parent reflect.Value, f *FieldInfo, t reflect.Type) reflect.Value {
+	if g.enumMap == nil {
+		g.enumMap = enumTypeMap(g.C.NewRoot())
+	}
+	v, ok := g.valueOfType(parent, f, f.YType, t, true)
+	if !ok {
+		return reflect.Value{}
+	}
+	return v
+}
+
 // leafValue draws a value of Go type t for leaf field f.
 func (g *Gen) leafValue(parent reflect.Value, f *FieldInfo, t reflect.Type, inList bool) (reflect.Value, bool) {
 	return g.valueOfType(parent, f, f.YType, t, false)
